@@ -307,3 +307,41 @@ pub open spec fn inner_ctx(it0: FlopExhaustiveEvaluatorIterator, s1: FlopExhaust
     &&& c.t == s1.current_turn_index as int && c.r == s1.current_river_index as int && c.idx == idx_of(s1)
     &&& pos_ok(c.t, c.r) && idx_ok(c.idx, lens)
 }
+
+// ---------- the evaluator object and the iterator constructor ----------
+
+pub open spec fn evaluator_ok(e: FlopExhaustiveEvaluator) -> bool {
+    &&& e.board@[0] is Some && e.board@[1] is Some && e.board@[2] is Some && e.board@[3] is None && e.board@[4] is None
+    &&& e.board@[0] != e.board@[1] && e.board@[0] != e.board@[2] && e.board@[1] != e.board@[2]
+    &&& pos_or_term(e.turn_from as int, e.river_from as int) && pos_or_term(e.turn_to as int, e.river_to as int)
+    &&& tr_le(e.turn_from as int, e.river_from as int, e.turn_to as int, e.river_to as int)
+    &&& forall|i: int, cp: CardPair| 0 <= i < e.players@.len() && #[trigger] e.players@[i].0@.contains_key(cp) ==> cp.0 != cp.1
+}
+
+/// the 49 cards not on the flop, in card-code order (ace to deuce; within a rank spade, heart, diamond, club)
+pub open spec fn deck_is_unseen(deck: Seq<Card>, flop: Seq<Card>) -> bool {
+    &&& deck.len() == 49
+    &&& forall|i: int, j: int| 0 <= i < j < 49 ==> card_code(#[trigger] deck[i]) < card_code(#[trigger] deck[j])
+    &&& forall|c: Card| #[trigger] in_seq(c, deck) <==> !in_seq(c, flop)
+}
+
+pub open spec fn in_seq(c: Card, s: Seq<Card>) -> bool { exists|i: int| 0 <= i < s.len() && #[trigger] s[i] == c }
+
+/// entries list every combo of the range exactly once, with its weight
+pub open spec fn is_listing(entries: Seq<(CardPair, f32)>, m: Map<CardPair, f32>) -> bool {
+    &&& forall|k: int| 0 <= k < entries.len() ==> m.contains_key((#[trigger] entries[k]).0) && m[entries[k].0] == entries[k].1
+    &&& forall|k: int, l: int| 0 <= k < l < entries.len() ==> (#[trigger] entries[k]).0 != (#[trigger] entries[l]).0
+    &&& forall|cp: CardPair| m.contains_key(cp) ==> exists|k: int| 0 <= k < entries.len() && (#[trigger] entries[k]).0 == cp
+}
+
+/// ASSUMED postcondition of the iterator constructor (pinned to a fingerprint of its source text)
+pub open spec fn constructed_from(it: FlopExhaustiveEvaluatorIterator, e: FlopExhaustiveEvaluator) -> bool {
+    &&& wf(it)
+    &&& it.turn_to == e.turn_to && it.river_to == e.river_to
+    &&& it.current_turn_index == e.turn_from && it.current_river_index == e.river_from
+    &&& it.current_board@[0] == e.board@[0] && it.current_board@[1] == e.board@[1] && it.current_board@[2] == e.board@[2]
+    &&& deck_is_unseen(it.current_deck@, game_of(it).flop)
+    &&& it.player_entries@.len() == e.players@.len()
+    &&& forall|i: int| 0 <= i < e.players@.len() ==> is_listing(#[trigger] it.player_entries@[i]@, e.players@[i].0@)
+    &&& forall|i: int| 0 <= i < it.current_player_indexes@.len() ==> #[trigger] it.current_player_indexes@[i] == 0
+}
